@@ -1,5 +1,6 @@
 import MpVerif.C04.Lemmas
 import MpVerif.C04.Chains
+import MpVerif.C04.Shared
 /-!
 # C04 — property theorems
 
@@ -283,6 +284,77 @@ theorem C04_prechain_slack (k : Kind) (zero : Cell → Bool) (A M N : List Entry
 theorem C04_warmstart_slack_entry (S : St) (cs ct vs : Cell) (sd : SlackData) (hd : ct ≠ vs) (h0 : S vs = 0) :
     (preEntry .sol (.r2s cs ct vs sd) S) vs = lowerSlack (S.setNum ct (S cs)) vs.1 sd := by
   simp [preEntry, St.setNum_other _ _ (Ne.symm hd), h0]
+
+/-! ## Items shared by several original items (a functional constraint used by several constraints, …)
+
+The converter links EVERY user of a shared item to it by One2Many entries.  The decidable certificates
+`m2mSourcesRev` (who writes the shared item in a presolve run) and `reachPost` (is the user linked to the shared item)
+are evaluated on the real graph for every original constraint whose expression contains the shared expression. -/
+
+/-- Presolve (suffixes such as `.funcpieces`, lazy flags, basis, warm-start duals): a solver item `t` that is fed (through
+    copies) only by One2Many entries receives `foldl setNumVal 0` = the max among non-zero of the values given for ALL
+    linked users, in any kind. -/
+theorem C04_shared_presolve_max (g : Graph) (k : Kind) (inputs : List (Nat × List Val)) (prev S' : St)
+    (zero : Cell → Bool) (hz : ∀ c, zero c = true → inputs.lookup c.1 = none) (t : Cell) (us : List Cell)
+    (h : m2mSourcesRev zero g.entries.reverse t = some us) (hsrc : srcsUnwritten g.entries us = true)
+    (hrun : runFrom g prev ⟨.pre, k, inputs⟩ = some S') :
+    S' t = (us.map (fun u => loadInto (clean prev) g.size inputs u)).foldl setNumVal 0 := by
+  simp only [runFrom, Option.some.injEq] at hrun
+  subst hrun
+  have hsrc' : ∀ u ∈ us, ∀ e ∈ g.entries.reverse, e.preWrites u = false := by
+    intro u hu e he
+    simp only [srcsUnwritten, List.all_eq_true, Bool.not_eq_eq_eq_not, Bool.not_true] at hsrc
+    exact hsrc u hu e (List.mem_reverse.mp he)
+  have := m2mSourcesRev_sound k zero (loadInto (clean prev) g.size inputs)
+    (loaded_zero prev g.size inputs zero hz) g.entries.reverse t us h hsrc'
+  rw [List.reverse_reverse] at this
+  exact this
+
+/-- `foldl setNumVal 0` is the max among the non-zero values: it dominates every non-zero contribution (and is then
+    non-zero), and it is one of the contributions or 0. -/
+theorem C04_shared_max_spec (vs : List Val) :
+    (∀ v ∈ vs, v ≠ 0 → vs.foldl setNumVal 0 ≠ 0 ∧ v ≤ vs.foldl setNumVal 0) ∧
+    (vs.foldl setNumVal 0 = 0 ∨ vs.foldl setNumVal 0 ∈ vs) :=
+  ⟨fun v hv h => foldSet_mem vs 0 v hv h, foldSet_in vs 0⟩
+
+/-- Postsolve (IIS flags, basis statuses, duals, generic suffixes).  Split the entry list at the first entry that writes the
+    shared item `t` in a postsolve run: `A` (registered before, run after) and `B`.  If `B` gives `t` the origin `o`
+    (certificate, e.g. the solver's general constraint `r`) and `A` links user `u` to `t` (`reachPost`), then a non-zero
+    solver value reaches `u`: it ends non-zero and at least that value (max among non-zero) — for EVERY linked user. -/
+theorem C04_shared_postsolve_reaches (g : Graph) (k : Kind) (inputs : List (Nat × List Val)) (prev S' : St)
+    (zero : Cell → Bool) (hz : ∀ c, zero c = true → inputs.lookup c.1 = none) (u t : Cell) (o : Origin)
+    (hA : reachPost (g.entries.takeWhile (fun e => !e.postWrites t)) u t = true)
+    (hB : tracePost k zero (g.entries.dropWhile (fun e => !e.postWrites t)) t = some o)
+    (hv : o.eval (loadInto (clean prev) g.size inputs) ≠ 0)
+    (hrun : runFrom g prev ⟨.post, k, inputs⟩ = some S') :
+    S' u ≠ 0 ∧ o.eval (loadInto (clean prev) g.size inputs) ≤ S' u := by
+  simp only [runFrom] at hrun
+  rw [← List.takeWhile_append_dropWhile (p := fun e => !e.postWrites t) (l := g.entries), runPost_append] at hrun
+  cases hB1 : runPost k (g.entries.dropWhile (fun e => !e.postWrites t)) (loadInto (clean prev) g.size inputs) with
+  | none => simp [hB1] at hrun
+  | some S1 =>
+    simp only [hB1, Option.bind_some] at hrun
+    have ht1 := tracePost_sound k zero _ (loaded_zero prev g.size inputs zero hz) _ t o S1 hB hB1
+    have hnw : ∀ e ∈ g.entries.takeWhile (fun e => !e.postWrites t), e.postWrites t = false := by
+      intro e he
+      have := mem_takeWhile_true _ _ e he
+      simpa using this
+    have := reachPost_sound k S1 _ u t S' hA hnw hrun (by rw [ht1]; exact hv)
+    rw [ht1] at this
+    exact this
+
+/-- two users of one shared item: nodes 0 src_cons (2 constraints), 1 _sin (1 functional constraint), 2 dest_cons(6) -/
+def sharedGraph : Graph :=
+  { entries := [.m2m ⟨0, 0, 1⟩ ⟨1, 0, 1⟩, .m2m ⟨0, 1, 1⟩ ⟨1, 0, 1⟩, .copy ⟨1, 0, 1⟩ ⟨2, 0, 1⟩], sizes := [2, 1, 1] }
+
+example : m2mSourcesRev (fun c => c.1 ≠ 0) sharedGraph.entries.reverse (2, 0) = some [(0, 0), (0, 1)] := by decide
+example : reachPost (sharedGraph.entries.takeWhile (fun e => !e.postWrites (1, 0))) (0, 1) (1, 0) = true := by decide
+example : tracePost .iis (fun c => c.1 ≠ 2) (sharedGraph.entries.dropWhile (fun e => !e.postWrites (1, 0))) (1, 0) = some (.init (2, 0)) := by decide
+example : (runFrom sharedGraph ⟨fun _ => 0⟩ ⟨.pre, .generic, [(0, [5, 9])]⟩).map (fun S => readNode S 2 1) = some [9] := by decide
+example : (runFrom sharedGraph ⟨fun _ => 0⟩ ⟨.post, .iis, [(2, [4])]⟩).map (fun S => readNode S 0 2) = some [4, 4] := by decide
+/-- the same model converted with the second user's link missing (seeded change C04-4): the value 9 and the IIS flag are lost -/
+example : (runFrom { sharedGraph with entries := [.m2m ⟨0, 0, 1⟩ ⟨1, 0, 1⟩, .copy ⟨1, 0, 1⟩ ⟨2, 0, 1⟩] } ⟨fun _ => 0⟩
+    ⟨.pre, .generic, [(0, [5, 9])]⟩).map (fun S => readNode S 2 1) = some [5] := by decide
 
 /-! ### The full-strength IIS statement is false on the code as it exists
 
